@@ -7,7 +7,8 @@
 (*    n = ceil(d / (0.1*lvs)), queries interpolate(from,to,i/n) for        *)
 (*    i = 1..n, `from` is never asked, stop at the first rejection;        *)
 (*    n <= 1 asks `to` only).  On a lattice interpolate(a,b,t) is the      *)
-(*    point ceil(d*t) units along the geodesic.                            *)
+(*    point min(ceil(d*t), d-1) units along the geodesic for t < 1 and the  *)
+(*    far endpoint for t = 1 only.                                         *)
 (*  - Covers : what property C03 demands of ANY implementation: the        *)
 (*    accepted queries lie along the whole segment, the far endpoint       *)
 (*    included, with no gap longer than the longest-valid-segment length.  *)
@@ -24,7 +25,7 @@ QueryPoints(T, a, b, Lvs) ==
   LET d == D(T, a, b)
       n == NumSteps(d, Lvs)
   IN IF n <= 1 THEN <<b>>
-     ELSE [i \in 1 .. n |-> Geo(T, a, b, CeilDiv(d * i, n))]
+     ELSE [i \in 1 .. n |-> Geo(T, a, b, IF i = n THEN d ELSE Min2(CeilDiv(d * i, n), d - 1))]
 
 \* result of the code's motion check against a validity set:
 \*   ok    - TRUE iff every query was accepted
